@@ -2,6 +2,7 @@ import BppProofs.Lemmas.Rand
 import BppProofs.Lemmas.RandRcont
 import BppProofs.Lemmas.RandRcontTotal
 import BppProofs.Lemmas.RandWalk
+import BppModel.DistGuards
 import BppProofs.Lemmas.RandLaw
 import BppProofs.Lemmas.RandSampleLaw
 import BppProofs.Lemmas.RandMonteCarlo
@@ -123,6 +124,16 @@ theorem nonempty_no_raise {τ : Type} (v : List τ) (replace : Bool) (pos : Nat)
     (∃ r, pickOne v replace pos = .ok r) ∧ (∃ r, pickOneConst v pos = .ok r) := by
   obtain ⟨e, _, hp⟩ := pickOne_ok replace hpos
   exact ⟨⟨_, hp⟩, ⟨_, pickOneConst_ok hpos⟩⟩
+
+/-! The `…_law` / `…_pred` theorems about `lawPickAt`, `lawSampleUnif`, `cumSumPickOk`,
+`multinomialLawOk`, `hmmStepOk` (`pick_law`, `sample_repl_law`, `cumsum_pick_law_pred`,
+`multinomial_state_law_pred`, `hmm_sample_law`, `hmm_step_pred`) restate the model's algorithm as a
+predicate ("the model computes what it computes"): they carry no hypotheses and little content as
+theorems.  Their purpose is that the driver evaluates these predicates on the IMPLEMENTATION's
+recorded draws.  The theorems with real content are the interval statements under explicit
+hypotheses: `weighted_pick_law`, `weight_intervals_partition`, `weighted_sample_law`,
+`weighted_sample_norepl_law`, `cumsum_pick_law_sorted`, `multinomial_state_law`, `drand_law`,
+`hmm_step_law`.  For the unweighted pick the law is the primitive's (trusted) uniformity. -/
 
 /-- the law of the unweighted picks given the integer draw (`FAIL:pick_law` in the driver): both
 `pickOne(v, replace)` and `pickOne(const v)` return the element at the position the draw designates
@@ -691,8 +702,13 @@ theorem hmm_uninitialised_witness : hmmChain [[(1 : ℝ) / 2, 1 / 4], [1 / 2, 1 
 /-- `pvalue_range`, about the transcribed Monte-Carlo loop of the constructor
 (`count = 0; for (k = 0; k < nbPermutations; ++k) { …rcont2()…; if (stat_rep >= statistic_) count++; }
 pvalue_ = (count + 1) / (nbPermutations + 1)`): for every observed statistic, every number of
-permutations and every stream of replicate statistics, the loop ends with `count ≤ nbPermutations`,
+permutations `> 0` and every stream of replicate statistics, the loop ends with `count ≤ nbPermutations`,
 hence the p-value lies in `(0, 1]` -/
+-- Scope: the Monte-Carlo branch only.  The constructor takes it for `nbPermutations > 0`; the DEFAULT
+-- `nbPermutations = 0` computes `1 - pChisq(statistic, df)` instead (ContingencyTableTest.cpp:100-108),
+-- for which there is no theorem (C08's kernel; the range is checked on executions only).  The
+-- statement below also holds of `nb = 0` (`mcPValue stat 0 sims = .ok 1`), a case the code never
+-- runs through this loop.
 theorem pvalue_range (stat : ℝ) (nb : Nat) (sims : List ℝ) (p : ℝ) (h : mcPValue stat nb sims = .ok p) :
     0 < p ∧ p ≤ 1 := by
   unfold mcPValue mcPValueWith loopIterations at h
@@ -768,27 +784,51 @@ theorem pvalue_range_of_count (count nb : Nat) (h : count ≤ nb) :
 
 /-! ## parameter conventions of the sampler wrappers (table regenerated from the sources) -/
 
-/-- `wrapper_conventions`: for every sampler wrapper found in RandomTools.h / RandomTools.cpp
-(`giveRandomNumberBetweenZeroAndEntry`, `flipCoin`, `randGaussian`, `randGamma` (both), `randExponential`,
-`randBeta`), the law of the standard-library family with the arguments the wrapper passes to it is
-the law the library's own cumulative functions mean by the wrapper's parameter names (a mean is the
-mean, a rate the rate, a variance the variance) — for ALL real parameter values (a variance
-non-negative).  Canonical parametrisation: normal (mean, variance); exponential (rate); gamma
-(shape, rate); beta (α, β); uniform (lo, hi); plus a location. -/
+/-- `wrapper_conventions` — a comparison of tables, not a statement about probability measures.
+For every sampler wrapper found in RandomTools.h / RandomTools.cpp (`giveRandomNumberBetweenZeroAndEntry`,
+`flipCoin`, `randGaussian`, `randGamma` (both), `randExponential`, `randBeta`; table regenerated from
+the source on every run): the tagged tuple (family, canonical parameters, location) that the
+hand-written table `stdLawS` assigns to "this std:: distribution with the argument expressions the
+wrapper passes" equals — as real numbers, for ALL real parameter values (a variance non-negative) —
+the tuple the hand-written table `libLawS` assigns to the wrapper's name.  `stdLawS` records the
+parameter order of ISO C++ [rand.dist] (normal(mean, stddev), gamma(shape, scale), exponential(rate));
+`libLawS` records what the library's own cumulative functions mean by the wrapper's parameter
+names (`pNorm(x, mu, sigma)`, `pGamma(x, alpha, beta)` with `beta` a rate, …).  Both tables are
+TRUSTED (`trusted_base`); nothing in Lean gives the tag `LawFam.exponential [r]` a mean of `1/r`.
+What ties `libLawS` to the library is `libLaw_gamma_beta_is_rate` / `libLaw_norm_sigma_is_scale`
+below (against C08's transcription of the cdfs) and, on executions, the KS tests.  Canonical
+parametrisation: normal (mean, variance); exponential (rate); gamma (shape, rate); beta (α, β);
+uniform (lo, hi); plus a location. -/
 theorem wrapper_conventions : ∀ w ∈ Generated.wrappers,
     ∃ a b, stdLawS w.family w.args = some a ∧ libLawS w.name = some b ∧
       ∀ ρ : String → ℝ, (∀ n ∈ nonnegParams, 0 ≤ ρ n) → a.eval ρ = b.eval ρ := by
   intro w hw
   exact wrapperOk_sound (List.all_eq_true.mp wrappers_all_ok w hw)
 
-/-- the same for each distribution class' `randC()` (Beta, Exponential, Gamma with its offset,
-Gaussian, TruncatedExponential, Uniform): the law of the wrapper it calls, with the arguments it
-passes and the shift it adds, is the law of the class' own `pProb` -/
+/-- the same table comparison for each distribution class' `randC()` (Beta, Exponential, Gamma with
+its offset, Gaussian, TruncatedExponential, Uniform): the tuple of the wrapper it calls, with the
+arguments it passes and the shift it adds, equals the tuple the hand-written (trusted) table
+`distLawS` records for the class' own `pProb`.  The rejection loop on the bounds and the
+truncation point are not in the table. -/
 theorem randC_conventions : ∀ r ∈ Generated.randCs,
     ∃ a b, randCLawS Generated.wrappers r = some a ∧ distLawS r.dist = some b ∧
       ∀ ρ : String → ℝ, (∀ n ∈ nonnegParams, 0 ≤ ρ n) → a.eval ρ = b.eval ρ := by
   intro r hr
   exact randCOk_sound (List.all_eq_true.mp randCs_all_ok r hr)
+
+/-- semantic anchor of the hand-written table `libLawS` (1): in C08's transcription of the
+library's own `pGamma(x, alpha, beta)` (`DistGuards.pGamma`, tied to the code by C08's check), `beta`
+is a RATE — the cdf at `x` with rate `beta` is the unit-rate cdf at `beta · x` — for every kernel -/
+theorem libLaw_gamma_beta_is_rate (K : DistGuards.Kernels ℝ) (x a b : ℝ) (hb : 0 ≤ b) :
+    DistGuards.pGamma K x a b = DistGuards.pGamma K (b * x) a 1 := by
+  have h1 : Scalar.ltb b (Scalar.zero : ℝ) = false := by simp [Scalar.zero]; exact hb
+  have h2 : Scalar.ltb (1 : ℝ) (Scalar.zero : ℝ) = false := by simp [Scalar.zero]
+  simp only [DistGuards.pGamma, h1, h2, Bool.false_eq_true, if_false, smul, one_mul]
+
+/-- semantic anchor (2): in C08's transcription of `pNorm(x, mu, sigma)`, `mu` is a location and
+`sigma` a scale (standard deviation, not variance): the cdf is the standard one at `(x - mu)/sigma` -/
+theorem libLaw_norm_sigma_is_scale (ex tr : ℝ → ℝ) (x mu sigma : ℝ) :
+    PNorm.pNorm3 ex tr x mu sigma = PNorm.pNorm ex tr ((x - mu) / sigma) := rfl
 
 /-- every drawing wrapper the hand-written table knows is present in the regenerated table, and
 every distribution family with a direct continuous draw -/
